@@ -145,6 +145,50 @@ func runC16Deep2(r *Run, rng *Rng, replay string) {
 		runC16DeepScenario(r, ops, "deep2")
 	}
 	c16ProbeLg64(r)
+	for _, w := range []int{1, 2, 4, 8} {
+		c16ProbeCaps(r, w)
+	}
+}
+
+// Builder.createPorts: the incoming buffers of Top / Bottom / Translation hold numReqPerCycle
+// messages, the control port exactly one (gen_ports) — probed on the real ports.
+func c16ProbeCaps(r *Run, w int) {
+	line := fmt.Sprintf("probe caps w=%d", w)
+	comp := addresstranslator.MakeBuilder().
+		WithEngine(&fakeEngine{}).
+		WithFreq(1 * sim.GHz).
+		WithNumReqPerCycle(w).
+		WithMemoryProviderMapper(onePortMapper{"Mem"}).
+		WithTranslationProviderMapper(onePortMapper{"MMU"}).
+		Build("ATcap")
+	top, bot, tr, ctl := comp.VerifC16Ports()
+	conn := &fakeConn{name: "c16c"}
+	for _, p := range []sim.Port{top, bot, tr, ctl} {
+		p.SetConnection(conn)
+	}
+	fill := func(p sim.Port, mk func() sim.Msg) int {
+		n := 0
+		for n < 64 && p.Deliver(mk()) == nil {
+			n++
+		}
+		return n
+	}
+	got := []int{
+		fill(top, func() sim.Msg {
+			return mem.ReadReqBuilder{}.WithSrc("CU").WithDst(top.AsRemote()).WithAddress(0).WithByteSize(4).Build()
+		}),
+		fill(bot, func() sim.Msg { return mem.WriteDoneRspBuilder{}.WithSrc("Mem").WithDst(bot.AsRemote()).WithRspTo("x").Build() }),
+		fill(tr, func() sim.Msg {
+			return vm.TranslationRspBuilder{}.WithSrc("MMU").WithDst(tr.AsRemote()).WithRspTo("x").Build()
+		}),
+		fill(ctl, func() sim.Msg {
+			return mem.ControlMsgBuilder{}.WithSrc("Ctl").WithDst(ctl.AsRemote()).ToDiscardTransactions().Build()
+		}),
+	}
+	r.Checked("probe.caps")
+	if got[0] != w || got[1] != w || got[2] != w || got[3] != 1 {
+		r.Failf("C16.probe.capacity", line, "incoming capacities top/bottom/translation/control = %v, expected %d/%d/%d/1", got, w, w, w)
+	}
 }
 
 func c16ReqAddr(m interface{ GetAddress() uint64 }) uint64 { return m.GetAddress() }
